@@ -2747,7 +2747,10 @@ util::Result<void> CWallet::DisplayAddress(const CTxDestination& dest)
 void CWallet::LoadLockedCoin(const COutPoint& coin, bool persistent)
 {
     AssertLockHeld(cs_wallet);
-    m_locked_coins.emplace(coin, persistent);
+    // A coin that is already locked in memory only may be locked again persistently
+    // (lockunspent allows it): remember that a database record now exists, so that
+    // unlocking erases it.
+    m_locked_coins[coin] |= persistent;
 }
 
 bool CWallet::LockCoin(const COutPoint& output, bool persist)
